@@ -266,7 +266,9 @@ func schedBody(d Driver, sc Scenario, obs *schedObs) {
 }
 
 // MainSchedules is the body of a pool's concurrent C09 test.
-// In the quick tier only the scenarios with at most quickMaxThreads threads are run.
+// In the quick tier only the scenarios with at most quickMaxThreads threads are run; in the thorough
+// tier the scenarios with more threads run with one preemption less (their interleaving space at the
+// full bound does not fit the time budget; a truncated search would not even cover the smaller bound).
 func MainSchedules(t *testing.T, d Driver, scenarios []Scenario, quickBound, thoroughBound, quickMaxThreads int) {
 	part := d.Name() + "-schedules"
 	p := vreport.Begin("C09", part, time.Duration(vreport.Pick(4, 20))*time.Minute)
@@ -322,13 +324,18 @@ func MainSchedules(t *testing.T, d Driver, scenarios []Scenario, quickBound, tho
 	}
 	bound := vreport.Pick(quickBound, thoroughBound)
 	complete := true
-	ran := 0
+	ran, reduced := 0, 0
 	for _, sc := range scenarios {
 		if !vreport.Thorough() && len(sc.Threads) > quickMaxThreads {
 			continue
 		}
 		ran++
-		c := SchedCase{Pool: d.Name(), Scenario: sc, Bound: bound}
+		b := bound
+		if len(sc.Threads) > quickMaxThreads {
+			b = bound - 1
+			reduced++
+		}
+		c := SchedCase{Pool: d.Name(), Scenario: sc, Bound: b}
 		// determinism self-check: the default schedule twice
 		var canon [2]string
 		var n [2]int
@@ -350,6 +357,6 @@ func MainSchedules(t *testing.T, d Driver, scenarios []Scenario, quickBound, tho
 		}
 	}
 	p.End(complete,
-		fmt.Sprintf("pool %s: %d scenarios (2-3 threads of NewStream / reply / remote close after a sequential prefix), every interleaving with <= %d preemptions", d.Name(), ran, bound),
+		fmt.Sprintf("pool %s: %d scenarios (2-3 threads of NewStream / reply / remote close after a sequential prefix), every interleaving with <= %d preemptions (%d scenarios with more than %d threads: <= %d)", d.Name(), ran, bound, reduced, quickMaxThreads, bound-1),
 		"stateless DFS over the scheduling choices of the instrumented pool, stream and resource code; one evaluation = one complete execution, checked at exact quiescence with the BFS state oracle (I1-I3, I5; violations already present after the prefix are not reported) and the capacity probe (I4) after draining; distinct = distinct (scenario, canonical end state); outcome = per-thread event outcomes")
 }
